@@ -1049,7 +1049,19 @@ func runBuildCase(rep *Report, in FileInput, cf *CaseFile, fail func(prop, sig, 
 	}
 	if cf != nil {
 		lens := chunkLens(content, in.Chunker)
-		cf.Add(fmt.Sprintf("mk_fbuild %d %s %d (Some (%d, %d)) (Some (%d, %d))", in.Width, coqNList(lens), in.Seed, dag.FP(), size, rdag.FP(), rsize), in)
+		// the reference's other layout (trickle, raw leaves) over the same chunks: compared with File/Trickle.v, whose DAGs are
+		// proved well-sized for every width and chunk list
+		tr := "None"
+		if len(lens) > 0 {
+			tst := NewStore()
+			troot, tsize, terr := refImport(tst, refOpts{Width: in.Width, Chunker: in.Chunker, RawLeaves: true, Trickle: true}, content)
+			if terr != nil {
+				fail("C01", "ref-trickle-error", "the reference trickle importer failed (harness / reference library)", nil, terr.Error())
+			} else {
+				tr = fmt.Sprintf("(Some (%d, %d))", dumpDAG(tst, troot, map[string]*DNode{}).FP(), tsize)
+			}
+		}
+		cf.Add(fmt.Sprintf("mk_fbuild %d %s %d (Some (%d, %d)) (Some (%d, %d)) %s", in.Width, coqNList(lens), in.Seed, dag.FP(), size, rdag.FP(), rsize, tr), in)
 	}
 }
 
